@@ -285,7 +285,8 @@ def genIns (sid maxLen : Nat) : G (Ins × List Smp) := do
   let km ← listOf 96 (below nsm)
   return ({ name := name, subs := subs, keymap := List.replicate 12 0 ++ km ++ List.replicate 13 0 }, smps)
 
-def gen (size : Nat) : G (Module × Opts × String) := do
+def gen (witness : Nat) : G (Module × Opts × String) := do
+  let size := if witness ≥ 7 then 0 else witness
   let chn ← if (← chance 60) then range 1 8 else range 1 32
   let npat ← if (← chance 5) then range 1 64 else range 1 (2 + size)
   let npat := if size = 0 then min npat 3 else npat
@@ -322,13 +323,13 @@ def gen (size : Nat) : G (Module × Opts × String) := do
   let eis ← match (← below 3) with | 0 => pure 29 | 1 => pure 33 | _ => pure 263
   -- regression witnesses of two repaired end-of-file defects of the loader (size classes 7 and 8):
   -- a final sample-less instrument with the plain 29-byte header and a name; a final sample of 5 bytes
-  if size = 7 then
+  if witness = 7 then
     ins := ins.push { name := str "LAST", subs := [] }
-  if size = 8 then
+  if witness = 8 then
     ins := ins.push { name := str "TAIL", subs := [{ sid := smps.size, vol := 64, pan := 128, xpo := 0, fin := 0 }],
                       keymap := List.replicate 121 0 }
     smps := smps.push { name := str "five", len := 5, lps := 0, lpe := 0, flg := 0, pcm := [1, 2, 3, 4, 5] }
-  let eis := if size = 7 then 29 else eis
+  let eis := if witness = 7 then 29 else eis
   let nins := ins.size
   let trk ← match (← below 3) with
     | 0 => pure (str "FastTracker v2.00   ") | 1 => pure (str "OpenMPT 1.31.07.00  ") | _ => genName 20
